@@ -157,3 +157,21 @@ Fixpoint run_ops (fuel : nat) (R : registry) (l : list Z) : list Z :=
   end.
 Definition registry_ops_io (l : list Z) : list Z := run_ops (length l) [] l.
 (* @export registry_ops_io *)
+
+(* ---- the shipped registry (Gen/RegistryData.v dumps jumanji.registration._REGISTRY by value) ---- *)
+(* the regex the model implements, as the code points of ENV_NAME_RE.pattern *)
+Definition modelled_pattern : str :=
+  [94;40;63;58;40;63;80;60;110;97;109;101;62;91;92;119;58;46;45;93;43;63;41;41;40;63;58;45;118;40;63;80;60;118;101;114;115;105;111;110;62;92;100;43;41;41;63;36].
+
+(* replaying `register(id, entry)` for every shipped id from the empty registry succeeds each time *)
+Fixpoint register_all (R : registry) (l : list (str * str)) : option registry :=
+  match l with
+  | [] => Some R
+  | (id, entry) :: r => match register R id entry [] with RegOk R' => register_all R' r | _ => None end
+  end.
+Definition canonical_b (id : str) : bool :=
+  match parse_env_id id with Parsed n v => str_eqb (get_env_id n v) id | _ => false end.
+Definition shipped_ok_b (pattern : str) (l : list (str * str)) : bool :=
+  str_eqb pattern modelled_pattern
+  && forallb (fun p => canonical_b (fst p)) l
+  && match register_all [] l with Some R => list_eqb str_eqb (map fst R) (map fst l) | None => false end.
